@@ -4,3 +4,5 @@ import props.catalog_vm  # noqa: F401
 import props.catalog_types  # noqa: F401
 import props.catalog_shapes  # noqa: F401
 import props.catalog_err  # noqa: F401
+import props.catalog_mix  # noqa: F401
+import props.catalog_fbound  # noqa: F401
